@@ -15,6 +15,8 @@ Extracted facts
   * gtIsSwappedLt, neIsNotEq
   * dictHashComb  : how `Dict.sym_hash` combines the items ("frozenset" | "tuple")
   * listHashComb, objectHashShape, objectEqExactType, objectLtSameClassOnly
+  * objectOperators : `Object.__eq__` / `__ne__` / `__hash__` are `sym_eq` / its negation / `sym_hash`
+                    when the class has `use_symbolic_comparison`
 Any unexpected shape raises TranslatorError (= broken tie).
 """
 
@@ -311,6 +313,30 @@ def extract_hash(dtree, ltree, otree):
   return dict_comb, eq_exact, lt_same
 
 
+def extract_operators(otree):
+  """`Object.__eq__` / `__ne__` / `__hash__`: the operators of a class with
+  `use_symbolic_comparison` are `sym_eq`, its negation and `sym_hash`."""
+  ocls = common.find_class(otree, 'Object')
+
+  def guarded(fn_name, call_src, fallback_src):
+    body = _strip_doc(common.find_func(ocls, fn_name).body)
+    if len(body) != 2 or not isinstance(body[0], ast.If) or body[0].orelse or len(body[0].body) != 1:
+      return 'unknown'
+    test, inner, last = body[0].test, _returns(body[0].body[0]), _returns(body[1])
+    if (_name(test) == 'self.use_symbolic_comparison' and inner is not None and last is not None
+        and ast.unparse(inner) == call_src and ast.unparse(last) == fallback_src):
+      return call_src.split('(')[0].split('.')[1] + '-if-opted'
+    return 'unknown'
+
+  op_eq = guarded('__eq__', 'self.sym_eq(other)', 'super().__eq__(other)')
+  op_hash = guarded('__hash__', 'self.sym_hash()', 'super().__hash__()')
+  body = _strip_doc(common.find_func(ocls, '__ne__').body)
+  src = [ast.unparse(s) for s in body]
+  op_ne = 'not-eq' if src == ['r = self.__eq__(other)', 'if r is NotImplemented:\n    return r',
+                              'return not r'] else 'unknown'
+  return op_eq, op_ne, op_hash
+
+
 def _codes(s):
   return '[' + ', '.join(str(ord(c)) for c in s) + ']'
 
@@ -324,6 +350,7 @@ def run():
   _, ltree = common.parse_source(LIST)
   _, otree = common.parse_source(OBJECT)
   dict_comb, eq_exact, lt_same = extract_hash(dtree, ltree, otree)
+  op_eq, op_ne, op_hash = extract_operators(otree)
   # base.sym_hash: are plain list / tuple / dict hashed structurally (fix F16)?
   hsrc = ast.unparse(common.find_func(tree, 'sym_hash'))
   plain = [k for k in ('list', 'tuple', 'dict') if f'isinstance(x, {k})' in hsrc]
@@ -359,6 +386,9 @@ def run():
   L.append('def symHashPlain : List String := ' + common.lean_list([common.lean_str(k) for k in plain]))
   L.append('def objectEqExactType : Bool := ' + common.lean_bool(eq_exact))
   L.append('def objectLtFields : String := ' + common.lean_str(lt_same))
+  L.append('/-- `Object.__eq__` / `__ne__` / `__hash__` (classes with `use_symbolic_comparison`). -/')
+  L.append('def objectOperators : List String := '
+           + common.lean_list([common.lean_str(k) for k in (op_eq, op_ne, op_hash)]))
   L.append('')
   L.append('end Pg.C06.Gen')
   L.append('')
@@ -367,6 +397,7 @@ def run():
       'type_order_rows': [{'row': r, 'rank': s, 'line': ln} for r, s, ln in rows],
       'lt': ltf, 'gt_is_swapped_lt': gt_ok, 'ne_is_not_eq': ne_ok, 'dict_hash_comb': dict_comb,
       'object_eq_exact_type': eq_exact, 'sym_hash_plain': plain, 'object_lt_same_class_only': lt_same,
+      'object_operators': [op_eq, op_ne, op_hash],
   }
   changed = common.write_gen('C06Order', '\n'.join(L), sidecar)
   return {'changed': changed, 'sidecar': sidecar}
